@@ -1,4 +1,5 @@
 mod gen;
+mod hung;
 mod sel;
 
 fn arg<T: std::str::FromStr>(args: &[String], name: &str, default: T) -> T {
@@ -12,6 +13,15 @@ fn arg<T: std::str::FromStr>(args: &[String], name: &str, default: T) -> T {
     default
 }
 
+fn opt_arg(args: &[String], name: &str) -> Option<String> {
+    for i in 0..args.len() {
+        if args[i] == name && i + 1 < args.len() {
+            return Some(args[i + 1].clone());
+        }
+    }
+    None
+}
+
 fn main() {
     let args: Vec<String> = std::env::args().collect();
     if args.len() < 2 {
@@ -22,6 +32,14 @@ fn main() {
     let shards: usize = arg(&args, "--shards", 1usize);
     match args[1].as_str() {
         "sel" => sel::run(arg(&args, "--max-n", 10usize), shards, &outdir),
+        "hung" => hung::run(
+            arg(&args, "--seed", 1u64),
+            arg(&args, "--count", 100usize),
+            arg(&args, "--max-dim", 10usize),
+            shards,
+            &outdir,
+            opt_arg(&args, "--replay"),
+        ),
         other => {
             eprintln!("unknown subcommand {}", other);
             std::process::exit(2);
